@@ -110,6 +110,13 @@ func (st *State) doCall(instr *ssa.Call, c *ssa.CallCommon, fnv Value, args []Va
 		return st.finishCall(instr, r, deferred)
 	}
 	spec := e.specs.Funcs[key]
+	// a contract specific to the struct field the receiver was loaded from
+	if len(args) > 0 && args[0].Origin != "" && callee.Signature.Recv() != nil {
+		if fsx := e.specs.Funcs[args[0].Origin+"."+callee.Name()]; fsx != nil {
+			spec = fsx
+			key = args[0].Origin + "." + callee.Name()
+		}
+	}
 	hasBody := callee.Blocks != nil
 	useContract := spec != nil && (len(spec.Requires) > 0 || len(spec.Ensures) > 0 || spec.HasMod || spec.Extern || spec.Flags["contract"] != "") && spec.Flags["inline"] == ""
 	if useContract {
@@ -488,6 +495,19 @@ func (st *State) applySpec(spec *FuncSpec, sig *types.Signature, args []Value, p
 // evaluate the expression; the havoc is applied to st.
 func (st *State) havocLocation(env *Env, m *Expr) {
 	e := st.eng()
+	if mv, mt := env.tryMapExpr(m); mt != nil {
+		hn := e.mapHeapNames(mt)
+		for _, h := range hn {
+			cur := st.heapGet(h.name, h.sort)
+			_, es := splitArraySort(h.sort)
+			nv := e.fresh("hav", es)
+			if strings.HasPrefix(h.name, "ML_") {
+				st.assume(Ge(nv, IntLit(0)))
+			}
+			st.heapSet(h.name, h.sort, Store(cur, mv.Tm, nv))
+		}
+		return
+	}
 	switch m.Kind {
 	case EIdent:
 		if m.Op == "everything" {
@@ -642,6 +662,47 @@ func (st *State) havocLocation(env *Env, m *Expr) {
 		}
 	}
 	panic(specErr("unsupported modifies entry %s", m))
+}
+
+// tryMapExpr: a modifies entry that denotes a map object (a variable or field of map type)
+func (env *Env) tryMapExpr(m *Expr) (Value, *types.Map) {
+	if m.Kind != EIdent && m.Kind != ESel {
+		return Value{}, nil
+	}
+	var v Value
+	ok := func() (ok bool) {
+		defer func() {
+			if r := recover(); r != nil {
+				if _, isEE := r.(*EngineError); isEE {
+					ok = false
+					return
+				}
+				panic(r)
+			}
+		}()
+		if m.Kind == EIdent {
+			if _, has := env.vars[m.Op]; !has {
+				if env.fr == nil {
+					return false
+				}
+				if _, has2 := env.fr.params[m.Op]; !has2 {
+					return false
+				}
+			}
+		} else if m.Args[0].Kind == EIdent && env.st.tryTypeName(env, m.Args[0].Op) != nil {
+			return false
+		}
+		v = env.eval(m)
+		return true
+	}()
+	if !ok || v.T == nil {
+		return Value{}, nil
+	}
+	mt, isMap := types.Unalias(v.T).Underlying().(*types.Map)
+	if !isMap {
+		return Value{}, nil
+	}
+	return v, mt
 }
 
 func (env *Env) ghostFieldDecl(T types.Type, name string) string {
@@ -1039,6 +1100,12 @@ func (u *Unit) checkFrame(st *State, pos token.Pos) {
 			everything = true
 			continue
 		}
+		if mv, mt := env.tryMapExpr(m); mt != nil {
+			for _, h := range e.mapHeapNames(mt) {
+				allowedObj[h.name] = append(allowedObj[h.name], objLoc{ref: mv.Tm})
+			}
+			continue
+		}
 		// object-granular?
 		switch m.Kind {
 		case ESel:
@@ -1154,6 +1221,11 @@ func (u *Unit) checkFrame(st *State, pos token.Pos) {
 		}
 		goal := Forall([]Term{r}, Implies(And(allocated, Not(Or(excl...))), Eq(Select(cur, r), Select(old, r))))
 		u.addObl(st, "frame", n, pos, goal, false)
+		if len(u.obls) > 0 && u.obls[len(u.obls)-1].Kind == "frame" && strings.HasPrefix(n, "H_") {
+			if i := strings.LastIndex(n, "_"); i >= 0 {
+				u.obls[len(u.obls)-1].FrameField = e.fieldOfHeap[n]
+			}
+		}
 	}
 }
 
@@ -1302,11 +1374,11 @@ func (e *Engine) staticTypeOfSpecExpr(spec *FuncSpec, x *Expr) types.Type {
 func (st *State) assumeGlobalInvs() {
 	e := st.eng()
 	for _, g := range e.specs.Globals {
-		p, ok := e.ld.pkgByNm[g.PkgName]
-		if !ok {
-			continue
+		var tp *types.Package
+		if p, ok := e.ld.pkgByNm[g.PkgName]; ok {
+			tp = p.Types
 		}
-		env := &Env{st: st, old: st, vars: map[string]Value{}, pkg: p.Types}
+		env := &Env{st: st, old: st, vars: map[string]Value{}, pkg: tp}
 		func() {
 			defer func() {
 				if r := recover(); r != nil {
